@@ -24,7 +24,15 @@ BASELINE = pathlib.Path(__file__).resolve().parent.parent.parent / "baselines" /
 
 def skip_profile(f: FuncInfo) -> Dict[str, object]:
     parents = S.parents_of(f)
-    prof = {"continue": 0, "break": 0, "return_in_loop": 0, "return": 0, "guards": []}
+    prof = {"continue": 0, "break": 0, "return_in_loop": 0, "return": 0, "comp_ifs": 0, "unguarded_recursions": 0, "guards": []}
+    # filters of comprehensions skip elements just like `continue`; recursive descents (self.visit / self.transform on a child)
+    # that are not under any condition are the ones every input reaches
+    for n in ast.walk(f.node):
+        if isinstance(n, ast.comprehension):
+            prof["comp_ifs"] += len(n.ifs)
+        if isinstance(n, ast.Call) and isinstance(n.func, ast.Attribute) and isinstance(n.func.value, ast.Name) and n.func.value.id == "self" \
+                and n.func.attr in ("visit", "transform") and not S.guards_of(n, parents):
+            prof["unguarded_recursions"] += 1
     for n in ast.walk(f.node):
         kind = None
         if isinstance(n, ast.Continue):
@@ -82,14 +90,17 @@ def check_skips(ctx, f: FuncInfo, rule: str, baseline: Dict[str, Dict[str, objec
         ctx.skip(rule, f, f.node, "function not in the reference of skip statements")
         return
     prof = skip_profile(f)
-    worse = [k for k in ("continue", "break", "return_in_loop", "return") if prof[k] > ref.get(k, prof[k] if k == "return" else 0)]
+    worse = [k for k in ("continue", "break", "return_in_loop", "return", "comp_ifs") if prof[k] > ref.get(k, prof[k] if k in ("return", "comp_ifs") else 0)]
+    if prof["unguarded_recursions"] < ref.get("unguarded_recursions", 0):
+        worse.append("fewer unconditional descents into children")
     what = (f"{f.qualname}: {prof['continue']} continue / {prof['break']} break / {prof['return_in_loop']} return-in-loop / {prof['return']} return "
             f"(reference {ref.get('continue', 0)}/{ref.get('break', 0)}/{ref.get('return_in_loop', 0)}/{ref.get('return', '?')})")
     if not worse:
         ctx.ok(rule, f, f.node, what=what, nontrivial=(prof["continue"] + prof["break"] + prof["return_in_loop"]) > 0)
         return
     new = [g for g in prof["guards"] if g not in ref.get("guards", [])]
+    what += f"; {prof['comp_ifs']} comprehension filters (reference {ref.get('comp_ifs', '?')}); {prof['unguarded_recursions']} unconditional self.visit/self.transform (reference {ref.get('unguarded_recursions', '?')})"
     ctx.fail(rule, f, f.node,
-             f"{f.qualname} examines every element of its collections; it now has more `{'`/`'.join(worse)}` statements than the reference "
+             f"{f.qualname} examines every element of its collections; compared with the reference it has: {'; '.join(worse)} "
              f"({what}). New or changed: {new[:3]}: elements that were examined before are skipped",
              construct=f"{f.qualname}: more skips than the reference")
